@@ -1599,6 +1599,11 @@ PPL::Polyhedron::add_recycled_constraints(Constraint_System& cs) {
   // Adjust `cs' to the right topology and space dimension.
   // NOTE: we already checked for topology compatibility.
   cs.adjust_topology_and_space_dimension(topology(), space_dim);
+  // Adjusting the topology erases the trivially true strict inequalities:
+  // if nothing is left there is nothing to add (and nothing pending).
+  if (cs.has_no_rows()) {
+    return;
+  }
 
   const bool adding_pending = can_have_something_pending();
 
